@@ -246,6 +246,7 @@ func (l *sparseFileLoader) loadChunk(i int) error {
 		return nil
 	}
 
+	verifYield("sparse.loadChunk.beforeGet")
 	c, err := l.s.GetChunk(l.chunks[i].ID)
 	if err != nil {
 		return err
@@ -265,6 +266,7 @@ func (l *sparseFileLoader) loadChunk(i int) error {
 		return err
 	}
 
+	verifYield("sparse.loadChunk.beforeDone")
 	l.mu.Lock()
 	l.done.Set(i, true)
 	l.mu.Unlock()
